@@ -25,7 +25,7 @@ for p in props:
             "engine": "kverif",
             "level_claimed": {"category": "other", "text": c["text"], "design_ref": c["ref"]},
             "level_note": c["note"],
-            "technique": c["technique"],
+            "technique": "static analysis (go/types + go/ssa; nothing executed): " + c["technique"] + "; rules grown since are listed, per property, in RULES.md (generated from the evidence); before analysis, helpers that do not exist on the reference tree are inlined at source level and renamed functions/parameters are mapped back (DESIGN.md section 14)",
         })
     else:
         na.append({"property_id": pid, "reason": NOT_CLAIMED.get(pid, "no sound static rule built yet for any clause of this property (see DESIGN.md)")})
